@@ -21,14 +21,14 @@ rec_hit = []
 for k in sorted(seeded):
     own = k.split("-")[0]
     rb = seeded[k]["reported_by"]
-    o = ", ".join(rb.get(own, [])) or ("not reported (recorded as not caught, §10.6/§10.8)" if k in recorded else "**not reported**")
+    o = ", ".join(rb.get(own, [])) or ("not reported (recorded as not caught, §10.6/§10.8/§10.10)" if k in recorded else "**not reported**")
     if own not in rb:
         (rec_hit if k in recorded else missed).append(k)
     others = "; ".join(f"{p}: {', '.join(r)}" for p, r in sorted(rb.items()) if p != own) or "—"
     out.append(f"| {k} | {title(k)} | {o} | {others} |")
 out.append("")
 out.append(f"{len(seeded)} seeded changes, {len(seeded)-len(missed)-len(rec_hit)} reported by the check of the property they were written against"
-           + (f"; {len(rec_hit)} recorded as not caught ({', '.join(rec_hit)}; reasons in validation/recorded_misses.json, §10.6 and §10.8)" if rec_hit else "")
+           + (f"; {len(rec_hit)} recorded as not caught ({', '.join(rec_hit)}; reasons in validation/recorded_misses.json, §10.6, §10.8 and §10.10)" if rec_hit else "")
            + (f" (missed: {', '.join(missed)})" if missed else "") + ".")
 out.append("")
 per = {}
